@@ -284,6 +284,13 @@ def classify_crash(stderr, rc):
     return "fault=exit:%s" % rc
 
 
+def scratch_dir():
+    """a directory for files the harness writes and deletes again (opn2_openFile inputs)"""
+    d = os.path.join(CACHE, "scratch")
+    os.makedirs(d, exist_ok=True)
+    return d
+
+
 def run_impl(component, ops_text, variant="asan", timeout=600, stateless=False, cpu_limit=None):
     """Runs the harness. Returns list of observation lines, one per op. A crash becomes a `fault=` line for the op
     that was executing; with stateless=True the harness is restarted after it, otherwise the remaining ops
@@ -295,6 +302,7 @@ def run_impl(component, ops_text, variant="asan", timeout=600, stateless=False, 
     env = dict(os.environ)
     env["ASAN_OPTIONS"] = "detect_leaks=0:abort_on_error=0:allocator_may_return_null=1:max_allocation_size_mb=2048:quarantine_size_mb=8"
     env["UBSAN_OPTIONS"] = "print_stacktrace=0"
+    env["VERIF_TMPDIR"] = scratch_dir()
     restarts = 0
     while pos < len(ops):
         chunk = "\n".join(ops[pos:]) + "\n"
